@@ -50,7 +50,7 @@ class RandomWalkPolicy:
             # every other thread runs until it blocks before this one continues
             if self.stall_hot and self.rng.random() < self.stall_hot:
                 self.stalls += 1
-                return (0.001, 0.01, 0.05, 0.3)[self.rng.randrange(4)]
+                return (0.001, 0.01, 0.05, 0.3, 0.3, 1.0, 2.5, 6.0)[self.rng.randrange(8)]
             return 0.0
         if self.stall_p and kind != "line" and self.rng.random() < self.stall_p:
             self.stalls += 1
